@@ -523,9 +523,17 @@ impl<'a, K: HashKind> Case<'a, K> {
         }
         let st = self.next_stamp();
         let small_only = variant != 0 && self.rng.bool();
+        // "leafy": values large enough for ~3-5 cells per leaf, so that a few thousand keys
+        // give thousands of leaves and dozens of branch nodes
+        let leafy = !small_only && self.rng.chance(1, 3);
+        if leafy {
+            self.rep.feat("initial_fill_leafy", 1);
+        }
         for (i, k) in keys.into_iter().enumerate() {
             let len = if small_only {
                 self.rng.range(0, 24) as usize
+            } else if leafy {
+                self.rng.range(600, 1332) as usize
             } else {
                 crate::gen::value_len(&mut self.rng, ValProfile::Small)
             };
@@ -655,7 +663,45 @@ impl<'a, K: HashKind> Case<'a, K> {
         if view.is_empty() {
             return self.op_commit();
         }
-        let b = match self.rng.below(4) {
+        let b = match self.rng.below(6) {
+            4 | 5 => {
+                // wide update: every s-th key is deleted or rewritten with a value of another
+                // size class, and new neighbours are inserted - many leaves (and, in large trees,
+                // many branch nodes) split and merge in the same commit
+                let stride = *self.rng.pick(&[2u64, 3, 5, 11, 37]);
+                let phase = self.rng.below(stride);
+                let st = self.next_stamp();
+                let mut b: Batch = Vec::new();
+                for (i, k) in view.keys().enumerate() {
+                    if i as u64 % stride != phase {
+                        continue;
+                    }
+                    match self.rng.below(10) {
+                        0..=3 => b.push((*k, Access::Write(None))),
+                        4..=6 => {
+                            let len = self.rng.range(0, 40) as usize;
+                            b.push((*k, Access::Write(Some(crate::gen::stamped_value(st + i as u64, len)))));
+                        }
+                        7..=8 => {
+                            let len = self.rng.range(600, 1332) as usize;
+                            b.push((*k, Access::Write(Some(crate::gen::stamped_value(st + i as u64, len)))));
+                        }
+                        _ => {
+                            // a new neighbour right after k
+                            let mut nk = *k;
+                            nk[31] = nk[31].wrapping_add(1);
+                            if nk > *k && !view.contains_key(&nk) {
+                                let len = self.rng.range(0, 1332) as usize;
+                                b.push((nk, Access::Write(Some(crate::gen::stamped_value(st + i as u64, len)))));
+                            }
+                        }
+                    }
+                }
+                b.sort_by(|a, b| a.0.cmp(&b.0));
+                b.dedup_by(|a, b| a.0 == b.0);
+                self.rep.feat("wide_updates", 1);
+                b
+            }
             0 => gen_mass_delete(&mut self.rng, &view, 100),
             1 => {
                 let keep = self.rng.range(1, 2) as usize;
